@@ -472,7 +472,10 @@ func (s *SSEServer) handleSSE(w http.ResponseWriter, r *http.Request) {
 	// Clean up resources.
 	closeSessionDone(s.logger, session)
 	// Wait for a writer goroutine that is inside a write and keep later writes away: the
-	// response writer must not be used once this handler has returned.
+	// response writer must not be used once this handler has returned. That writer may be
+	// stuck (the peer stopped reading): expire its write, so that the wait does not depend on
+	// the peer.
+	_ = http.NewResponseController(w).SetWriteDeadline(time.Now())
 	session.writeMu.Lock()
 	session.streamClosed = true
 	session.writeMu.Unlock()
